@@ -152,7 +152,7 @@ func NewNameSystem(r routing.ValueStore, opts ...Option) (NameSystem, error) {
 			if err != nil {
 				return nil, err
 			}
-			staticMap[ipns.NamespacePrefix+key] = &cacheEntry{val: value, ttl: 0}
+			staticMap[cacheKey(key)] = &cacheEntry{val: value, ttl: 0}
 		}
 	}
 
@@ -216,7 +216,8 @@ func (ns *namesys) resolveOnceAsync(ctx context.Context, p path.Path, options Re
 		return out
 	}
 
-	if resolvedBase, ttl, lastMod, ok := ns.cacheGet(resolvablePath.String()); ok {
+	key := cacheKey(segments[1])
+	if resolvedBase, ttl, lastMod, ok := ns.cacheGet(key); ok {
 		p, err = joinPaths(resolvedBase, p)
 		span.SetAttributes(attribute.Bool("CacheHit", true))
 		span.RecordError(err)
@@ -262,7 +263,7 @@ func (ns *namesys) resolveOnceAsync(ctx context.Context, p path.Path, options Re
 			case res, ok := <-resCh:
 				if !ok {
 					if best != (AsyncResult{}) {
-						ns.cacheSet(resolvablePath.String(), best.Path, best.TTL, best.LastMod)
+						ns.cacheSet(key, best.Path, best.TTL, best.LastMod)
 					}
 					return
 				}
@@ -311,14 +312,13 @@ func (ns *namesys) Publish(ctx context.Context, name ci.PrivKey, value path.Path
 		return err
 	}
 
-	ipnsName := ipns.NameFromPeer(pid)
-	cacheKey := ipnsName.String()
+	key := cacheKey(ipns.NameFromPeer(pid).String())
 
 	span.SetAttributes(attribute.String("ID", pid.String()))
 	if err := ns.ipnsPublisher.Publish(ctx, name, value, options...); err != nil {
 		// Invalidate the cache. Publishing may _partially_ succeed but
 		// still return an error.
-		ns.cacheInvalidate(cacheKey)
+		ns.cacheInvalidate(key)
 		span.RecordError(err)
 		return err
 	}
@@ -330,7 +330,7 @@ func (ns *namesys) Publish(ctx context.Context, name ci.PrivKey, value path.Path
 	if ttEOL := time.Until(publishOpts.EOL); ttEOL < ttl {
 		ttl = ttEOL
 	}
-	ns.cacheSet(cacheKey, value, ttl, time.Now())
+	ns.cacheSet(key, value, ttl, time.Now())
 	return nil
 }
 
